@@ -949,7 +949,12 @@ fn apply_coercion_to_variant(
     _old_variant: &str,
     new_variant: &str,
 ) -> Option<String> {
-    // Detect the container style
+    // Detect the container style. A leading `_` / `__` is a prefix, not a separator
+    // (apply_coercion sets it aside as well): `__TokenBetasNorth` is Pascal, not Snake
+    let container = container
+        .strip_prefix("__")
+        .or_else(|| container.strip_prefix('_'))
+        .unwrap_or(container);
     let container_style = crate::coercion::detect_style(container);
 
     // If container has mixed or unknown style, no coercion
